@@ -77,7 +77,7 @@ func (m *c09Mon) AfterStore(n *cluster.SNode, call *cluster.StoreCall) {
 
 func c09Gen(rng *core.Rng, tier string) *harness.Plan {
 	p := &harness.Plan{Seed: rng.Uint64(), Params: map[string]int64{}}
-	if rng.Chance(0.3) {
+	if rng.Chance(0.4) {
 		c09MemGen(rng, tier, p) // changing membership on the membership rig, see c09mem.go
 		return p
 	}
@@ -285,11 +285,12 @@ func init() {
 		ID:    "C09",
 		Level: "exploration",
 		Rule: "seeded cluster runs (7-9 real nodes) whose whole history is injected: 12-31 (thorough 30-89) payloads per run on random chains incl. new rounds, each with a family of certificate variants (valid >= threshold with random signer sets; sub-threshold; out-of-range mask bit; signature over another hash; one wrong key in the aggregate; flipped mask/signature bit; changed payload under the same certificate), each variant delivered 1-3 times to every node in shuffled order with duplication/reordering and restarts; every WriteSnapshot on every node is judged by an independent verifier; " +
-			"30% of the runs are membership-rig histories in which the key set changes (pledge, acceptance + 12 h readiness, removal): every snapshot applied outside the node-operation window is judged against the rig's own membership model, and around every change forged certificates are offered (below threshold, wrong key, flipped mask bit, complete and correct for the key vector of another instant); " +
-			"non-trivial = at least one verified write and one invalid variant delivered; distinct = canonical-log digests. Membership is static per run (genesis members; runs with more than 7 nodes stay outside the node-operation window) — histories with pledge/accept/remove are covered for the threshold arithmetic by C10/C11.",
+			"40% of the runs are membership-rig histories in which the key set changes (pledge, acceptance + 12 h readiness, removal): every snapshot applied outside the node-operation window is judged against the rig's own membership model (threshold over the members accepted more than an hour ago, whether or not they may sign yet), and around every change forged certificates are offered (below threshold, exactly the threshold of the signing members only, wrong key, flipped mask bit, complete and correct for the key vector of another instant); the first run of every batch and 40% of the membership runs end in the race at the close of the node-operation window (ten members; a removal in the last seconds of the window reaches one node late; a snapshot stamped just after the window and certified by the vector before the removal is verified and queued by that node's transport loop first, its chain loop looks at it only after the removal has been applied, with the same threshold before and after); " +
+			"non-trivial = at least one verified write and one invalid variant delivered; distinct = canonical-log digests. In the cluster part membership is static per run (genesis members; runs with more than 7 nodes stay outside the node-operation window).",
 		Components: clusterComponents,
 		Assume:     clusterAssume,
 		Gen:        c09Gen,
+		Directed:   c09Directed,
 		Exec:       c09Exec,
 		QuickRuns:  64, ThoroughRuns: 3000,
 		QuickWall: 45 * time.Second, ThoroughWall: 12 * time.Minute,
